@@ -70,6 +70,7 @@ type c02Trial struct {
 	kk       bool
 	toServer bool // direction client -> server
 	sizes    []int
+	tag      byte // plaintext family (0 = 'w')
 }
 
 // setup performs the handshake and writes the records of both directions.
@@ -82,9 +83,13 @@ func (tr c02Trial) setup(rng *rand.Rand, revCount int) (reader *mailbox.Machine,
 	if !tr.toServer {
 		w, r = hs.S.M, hs.C.M
 	}
+	tag := tr.tag
+	if tag == 0 {
+		tag = 'w'
+	}
 	plains := make([][]byte, len(tr.sizes))
 	for i, s := range tr.sizes {
-		plains[i] = c02Plain(rng, 'w', i, s)
+		plains[i] = c02Plain(rng, tag, i, s)
 	}
 	recs, err = eng.WriteRecords(w, plains)
 	if err != nil {
@@ -349,7 +354,9 @@ func runC02Targeted(c *mon.Case) {
 			c.Shard.Inconc(err.Error())
 			return
 		}
-		_, other, _, err := tr.setup(rng, 0) // independent keys and passphrase
+		tr2 := tr
+		tr2.tag = 'x' // different plaintexts, independent keys and passphrase
+		_, other, _, err := tr2.setup(rng, 0)
 		if err != nil {
 			c.Shard.Inconc(err.Error())
 			return
